@@ -493,22 +493,23 @@ func (s *Scope) provide(ctor interface{}, opts provideOptions) (err error) {
 		s.providers[k] = append(s.providers[k], n)
 	}
 
-	for _, s := range allScopes {
-		s.isVerifiedAcyclic = false
-		if s.deferAcyclicVerification {
+	for _, scope := range allScopes {
+		scope.isVerifiedAcyclic = false
+		if scope.deferAcyclicVerification {
 			continue
 		}
-		if ok, cycle := graph.IsAcyclic(s.gh); !ok {
+		if ok, cycle := graph.IsAcyclic(scope.gh); !ok {
 			// When a cycle is detected, recover the old providers to reset
 			// the providers map back to what it was before this node was
-			// introduced.
+			// introduced. The node was added to s, which is not necessarily
+			// the scope in which the cycle was found.
 			for k, ops := range oldProviders {
 				s.providers[k] = ops
 			}
 
-			return newErrInvalidInput("this function introduces a cycle", s.cycleDetectedError(cycle))
+			return newErrInvalidInput("this function introduces a cycle", scope.cycleDetectedError(cycle))
 		}
-		s.isVerifiedAcyclic = true
+		scope.isVerifiedAcyclic = true
 	}
 
 	s.nodes = append(s.nodes, n)
